@@ -250,8 +250,12 @@ EffObjs(s, e) ==
     [] e.proc \in {"CREATE", "MKDIR", "SYMLINK"} ->
          IF e.name \in Names(s.objs[o]) THEN s.objs     \* UNCHECKED create of an existing file
          ELSE LET kind == IF e.proc = "CREATE" THEN REG ELSE IF e.proc = "MKDIR" THEN DIR ELSE LNK
+                  (* initial attributes: a server may ignore the size sent with CREATE (go-nfsd does) or apply it - then it   *)
+                  (* must be one SETATTR would accept, and the reply says which of the two happened                            *)
+                  sized == e.proc = "CREATE" /\ e.setsize /\ ~e.sizesat /\ e.size > 0 /\ s.lim.known /\ e.size <= s.lim.maxfs
+                           /\ e.hasattr /\ e.rsize = e.size
                   new  == [MkObj(kind, e.rfh, e.rid, IF kind = DIR THEN o ELSE 0)
-                             EXCEPT !.target = e.target, !.tlen = e.tlen]
+                             EXCEPT !.target = e.target, !.tlen = e.tlen, !.data = IF sized THEN RTrunc(<<>>, e.size) ELSE <<>>]
               IN [s.objs EXCEPT ![o].ents = @ @@ (e.name :> s.next)] @@ (s.next :> new)
     [] e.proc \in {"REMOVE", "RMDIR"} ->
          LET c == s.objs[o].ents[e.name] IN
